@@ -1,4 +1,5 @@
 PROP = {
+    "regen_files": ["GenGuards.v"],
     "num": 11,
     "runs": [{"tag": "c11", "bin": "c11"}],
     "mismatch_is_failing": True,
